@@ -14,6 +14,9 @@ if not os.path.isdir(WT):
 subprocess.run(["git", "-C", WT, "checkout", "-q", "--detach", head], check=True)
 subprocess.run(["git", "-C", WT, "checkout", "--", "."], check=True)
 subprocess.run(["git", "-C", WT, "clean", "-fdq"], check=True)
+_so = "src/fandango/language/parser/sa_fandango_cpp_parser.so"
+if os.path.exists("/repo/" + _so) and not os.path.exists(os.path.join(WT, _so)):
+    shutil.copy2("/repo/" + _so, os.path.join(WT, _so))
 env = dict(os.environ, PYTHONPATH=f"{WT}/src", PYTHONHASHSEED="0")
 env.pop("FANDANGO_RAISE_ALL_EXCEPTIONS", None)
 def demo():
